@@ -465,7 +465,7 @@ fn ob_c10_natural_invariant_bounds(p: usize, q: usize, x: usize, k: u8, a: usize
 //@ob C10.natural.from_closed_and_open
 //@ props: C10 C19 C05
 //@ kind: complete
-//@ fns: src/token/variance/natural.rs::NaturalRange::from_closed_and_open src/token/variance/natural.rs::NaturalRange::lower src/token/variance/natural.rs::NaturalRange::upper src/token/variance/natural.rs::NaturalLower::into_usize src/token/variance/natural.rs::NaturalUpper::into_usize src/token/variance/natural.rs::BoundedVariantRange::try_from_lower_and_upper
+//@ fns: src/token/variance/natural.rs::NaturalRange::from_closed_and_open src/token/variance/natural.rs::NaturalRange::lower src/token/variance/natural.rs::NaturalRange::upper src/token/variance/natural.rs::NaturalLower::into_usize src/token/variance/natural.rs::NaturalUpper::into_usize src/token/variance/natural.rs::BoundedVariantRange::try_from_lower_and_upper src/token/variance/natural.rs::NaturalRange::is_one src/token/variance/natural.rs::NaturalRange::is_zero
 //@ pre: none (all usize x Option<usize>)
 //@ post: the range denotes [min(c,o), max(c,o)] or [c, inf) when open; lower()/upper() read back exactly these bounds (so a repetition's bounds survive Repetition::variance() and the read-back that compose uses)
 fn ob_c10_natural_from_closed_and_open(closed: usize, has_open: bool, open: usize, n: usize) {
@@ -484,6 +484,8 @@ fn ob_c10_natural_from_closed_and_open(closed: usize, has_open: bool, open: usiz
     );
     assert!(r.lower().into_usize() == lo, "C19 lower bound read back");
     assert!(r.upper().into_usize() == hi, "C19 upper bound read back");
+    assert!(r.is_one() == (lo == 1 && hi == Some(1)), "C19 only the range of exactly 1 is 'exactly once' (a once-only repetition is the only one that may be collapsed)");
+    assert!(r.is_zero() == (lo == 0 && hi == Some(0)), "C19 only the range of exactly 0 is zero");
 }
 
 // ---------------------------------------------------------------------------------------------
